@@ -1,6 +1,6 @@
 """Iterator obligations: O4.1 MergingIterator (with CachingIterator inlined) over abstract children; O4.2 DatabaseIterator; O4.3 two-level iterators."""
 import itertools, time
-from z3 import BitVec, BitVecVal, Bool, BoolVal, And, Or, Not, Implies, ULT, ULE, UGT, UGE, If, simplify, is_true
+from z3 import Extract, BitVec, BitVecVal, Bool, BoolVal, And, Or, Not, Implies, ULT, ULE, UGT, UGE, If, simplify, is_true
 from ..exec import Exec, Enum, Ref, Opaque, Inconclusive, bv
 from ..ob import World, Result, klt, kle, keq, mval, key_bytes, MAXSEQ
 from .. import lib, absiter
@@ -239,6 +239,55 @@ def o4_3_two_level(mir, tier):
             res.absorb(ex)
             for pc, msg, where in ex.panics:
                 res.panic_paths += 1; res.violations.append({'label': 'panic path: ' + msg[:80], 'shape': list(shape), 'pattern': pat, 'replay': None})
+    # ---- an unreadable (corrupted) data block: a seek that lands in it reports an error, every time
+    for shape in [sh for sh in shapes if len(sh) >= 2][:3]:
+        for bad in range(len(shape)):
+            w = World(mir)
+            ents, blocks = [], []
+            for bi, cnt in enumerate(shape):
+                blk = []
+                for j in range(cnt):
+                    i = len(ents); e = (w.key('e%d' % i), BitVec('v%d' % i, 8)); ents.append(e); blk.append(e)
+                blocks.append(blk)
+            KE = [w.K(e[0]) for e in ents]
+            pre = list(w.pre) + [klt(KE[i], KE[i + 1]) for i in range(len(ents) - 1)]
+            index = [(blk[-1][0], mir.mk_struct('BlockHandle', offset=bv(1000 * bi), size=bv(100))) for bi, blk in enumerate(blocks)]
+            lo = sum(shape[:bad]); hi = lo + shape[bad] - 1
+            tk = w.key('t'); T = w.K(tk)
+            pre += [kle(T, KE[hi])] + ([klt(KE[lo - 1], T)] if lo > 0 else [])       # the target lands in the bad block
+            S = base_summaries(mir)
+            S.update(absiter.summaries(['<BlockIter<InternalKey> as RainDbIterator>::'], w.K))
+            S['BlockReader::iter'] = lambda se, env, pc, r: lib.one(env, absiter.make(se.deref(env, r)['entries']))
+            S['<BlockHandle as TryFrom<&Vec<u8>>>::try_from'] = lambda se, env, pc, v: lib.one(env, Enum('Ok', (se.deref(env, v),)))
+            hoff = mir.field('BlockHandle', 'offset')
+            def get_block(se, env, pc, tbl, opts, h, blocks=blocks, bad=bad):
+                j = lib.as_int(se.deref(env, h)[hoff]) // 1000
+                if j == bad: return lib.one(env, Enum('Err', (Enum('BlockDecompression', (Opaque('corrupt block'),), 'ReadError'),)))
+                return lib.one(env, Enum('Ok', ({'entries': blocks[j]},)))
+            S['table::Table::get_block_reader'] = get_block; S['Table::get_block_reader'] = get_block
+            S['$patterns'][r'<Arc<BlockReader<InternalKey>> as Deref>::deref'] = lib.ident
+            S['$patterns'][r'<Arc<Table> as Deref>::deref'] = lib.ptr_deref
+            S['$patterns'][r'<RainDBError as From<.*>>::from'] = lambda se, env, pc, e: lib.one(env, Enum('TableRead', (e,), 'RainDBError'))
+            ex = Exec(mir, S, loop_bound=len(shape) + 5)
+            table = mir.mk_struct('Table', index_block={'entries': index}, maybe_filter_block=Enum('None'))
+            it = mir.mk_struct('TwoLevelIterator', table=Ref('$table'), read_options={'abstract': True}, index_block_iter=absiter.make(index),
+                               maybe_data_block_iter=Enum('None'), data_block_handle=Enum('None'))
+            env0 = {'$state': {}, '$t': tk, '$table': table, '$it': it}
+            def corrupt_argv(ex, pc, shape=shape, bad=bad, T=T, KE=KE, ents=ents):
+                m = ex.model(*[Extract(7, 0, ke[0]) != BitVecVal(0, 8) for ke in KE])
+                if m is None: return None
+                return ['table_seek_corrupt', str(bad), '%s:%d' % (key_bytes(mval(m, T[0])), mval(m, T[1])), ','.join(str(c) for c in shape)] + \
+                       ['%s:%d:%d:%02x' % (key_bytes(mval(m, ke[0])), mval(m, ke[1]), mval(m, ke[2]), mval(m, ents[i][1])) for i, ke in enumerate(KE)]
+            def second(r1, env1, pc1, ex=ex, shape=shape, bad=bad):
+                def done(r2, env2, pc2):
+                    ex.paths += 1
+                    for n, r in ((1, r1), (2, r2)):
+                        if not (isinstance(r, Enum) and r.tag == 'Err'):
+                            res.violations.append({'label': 'table iterator: seek into an unreadable data block returns Ok (%s attempt); its entries are silently skipped' % ('first' if n == 1 else 'repeated'),
+                                                   'shape': list(shape), 'bad_block': bad, 'replay': corrupt_argv(ex, pc2)})
+                ex.run_fn(ops['seek'], [Ref('$it'), Ref('$t')], env1, pc1, done)
+            ex.top(ops['seek'], [Ref('$it'), Ref('$t')], env0, pre, second)
+            res.absorb(ex); res.cases['unreadable block'] = res.cases.get('unreadable block', 0) + 1
     res.wall_s = time.time() - t0
     if res.violations: res.status = 'violation'
     return res
@@ -260,6 +309,10 @@ def _table_iter_ref(argv):
 
 
 def o4_3_confirm(v, out):
+    if v['replay'][0] == 'table_seek_corrupt':
+        if out.get('_rc') != 0: return (False, 'native run failed: %s' % out.get('_stderr', '')[-300:])
+        bad = out.get('first_seek') == 'ok' or out.get('second_seek') == 'ok'
+        return (bad, 'native: data block corrupted on disk; first seek %s, repeated seek %s, cursor then at %s' % (out.get('first_seek'), out.get('second_seek'), out.get('cursor')))
     if out.get('_rc') != 0: return (True, 'native iterator panicked: %s' % out.get('_stderr', '')[-300:])
     exp = _table_iter_ref(v['replay']); got = out.get('cursor', '').split(',')[:len(exp)]
     return (got != exp, 'native cursor %s, reference cursor %s' % (got, exp))
